@@ -24,7 +24,7 @@ pub fn def() -> PropDef {
 fn plan(tier: Tier) -> Vec<Unit> {
     match tier {
         Tier::Quick => crate::util::split_budget("recip", 120_000, 1_000),
-        Tier::Thorough => crate::util::split_budget("recip", 3_000_000, 5_000),
+        Tier::Thorough => crate::util::split_budget("recip", 9_000_000, 5_000),
         Tier::Miri => crate::util::split_budget("recip", 4, 2),
     }
 }
